@@ -13,7 +13,7 @@
    and by the correspondence of the extracted writer model with the library.  Proved below: the
    statements do NOT hold for the pinned tree (five witnesses, each a defect with a patch or a
    finding). *)
-From CAres.Wire Require Import Cursor Name Record Parse Escape Escape_proofs RefDecode Name_ref Write Roundtrip Write_proofs Write_name.
+From CAres.Wire Require Import Cursor Name Record Parse Escape Escape_proofs RefDecode Name_ref Write Roundtrip Write_proofs Write_name Write_name2.
 From CAres.Gen Require Import Consts.
 Local Open Scope Z_scope.
 
@@ -34,6 +34,31 @@ Theorem C03_name_roundtrip_uncompressed_partial : forall wv base b labels post f
     dns_name_parse fuel c true false = Ok (escape_name labels, set_off c (Z.of_nat (length (w_live b')))).
 Proof. exact name_roundtrip_uncompressed. Qed.
 Print Assumptions C03_name_roundtrip_uncompressed_partial.
+
+(* NAME ROUND TRIP under the offset-list invariant of DESIGN.md A.4 (fixed variant: offsets relative
+   to the message start, no compression target beyond 16383).  [pre] is whatever the buffer held
+   before the message (TCP prefix, earlier frames), [out] the message so far, [ol] the offset list:
+   every entry is a canonical name that the RFC walk decodes at its offset (ol_ok).  Then whatever
+   ares_dns_name_write appends (all labels + 0, or some labels + a pointer to the longest registered
+   suffix, or just a pointer) keeps the invariant, and parsing at the position of the name in the
+   message - whatever follows - returns the same name and the position right behind it.
+   _partial: names in canonical presentation form (escape_name of valid labels), written without
+   hostname validation (RDATA names); owner/question names (validate_hostname = TRUE) and
+   non-canonical text (trailing dot, \DDD for printable octets) are not covered *)
+Theorem C03_name_roundtrip_partial : forall b pre out ol labels,
+  wb_wf b -> w_live b = pre ++ out -> ol_ok out ol -> bytes_ok out ->
+  Forall label_ok labels -> wire_len labels <= 256 -> slen (escape_name labels) < 512 ->
+  forall b' nl', name_write wfixed (Z.of_nat (length pre)) b (Some ol) false (escape_name labels) = Ok (b', nl') ->
+  exists more ol', nl' = Some ol' /\ wb_wf b' /\ w_live b' = pre ++ out ++ more /\ ol_ok (out ++ more) ol' /\
+    bytes_ok (out ++ more) /\
+    forall post fuel,
+      bytes_ok post ->
+      let msg := out ++ more ++ post in
+      let c := set_off (cur_of_bytes msg) (Z.of_nat (length out)) in
+      Z.of_nat (length msg) < 2 ^ 64 -> (name_fuel c <= fuel)%nat ->
+      dns_name_parse fuel c true false = Ok (escape_name labels, set_off c (Z.of_nat (length out + length more))).
+Proof. exact name_roundtrip. Qed.
+Print Assumptions C03_name_roundtrip_partial.
 
 (* pinned tree: a frame written by ares_dns_write_buf_tcp() into an EMPTY buffer already has its
    compression pointers off by the two octets of the length prefix
